@@ -2,7 +2,7 @@
   Driver for the SockIO model (C17).
     recv <waitall 0|1> <size> <streamhex> <script>   →  ok <hex> <unread> <scriptleft> | closed <hex|none> <unread> <left> | timeout .. | scriptend ..
     send <blocking 0|1> <datahex> <script>           →  ok|closed|timeout|scriptend <acceptedhex> <scriptleft>
-  script: comma separated events  d<k> | r | f | t   ("-" = empty)
+  script: comma separated events  d<k> | r | f | t | pr<k> | pf<k>   ("-" = empty)
 -/
 import PyroModel.SockIO
 import Driver.Util
@@ -13,6 +13,8 @@ def parseEv (s : String) : Option Ev :=
   if s == "r" then some .retryable
   else if s == "f" then some .fatal
   else if s == "t" then some .timeout
+  else if s.startsWith "pr" then (s.drop 2).toNat?.map (fun k => .partialFail k true)
+  else if s.startsWith "pf" then (s.drop 2).toNat?.map (fun k => .partialFail k false)
   else if s.startsWith "d" then (s.drop 1).toNat?.map .deliver
   else none
 
